@@ -46,22 +46,28 @@ ARG_KINDS = [
 ]
 
 
-def macro_body(i, callees, variant, seed):
+def n_params(i, variant):
+    """Macros take two, one or no parameters (parameterless ones share blueprint lists between expansions)."""
+    return (2, 2, 0, 1)[(i + variant) % 4]
+
+
+def macro_body(i, callees, variant, seed, nparams=2):
     """Body of macro i: parameter use, nested calls (passing its own parameter on), early return, private label."""
-    p, q = f"$p{i}", f"$q{i}"
-    body = [A.Op(f"m{i}_a", [("c", p), ("i", i)])]
+    p = ("c", f"$p{i}") if nparams >= 1 else ("c", f"FIXED_P{i}")
+    q = ("c", f"$q{i}") if nparams >= 2 else ("i", 40 + i)
+    body = [A.Op(f"m{i}_a", [p, ("i", i)])]
     for n, j in enumerate(callees):
-        a1 = ("c", q) if (n + variant) % 2 == 0 else ARG_KINDS[(seed + i + j) % len(ARG_KINDS)](i, j)
-        a2 = ("c", p) if (n + variant) % 3 == 0 else ("i", 100 + 10 * i + j)
-        body.append(A.MacroCall(f"m{j}", [a1, a2]))
+        a1 = q if (n + variant) % 2 == 0 else ARG_KINDS[(seed + i + j) % len(ARG_KINDS)](i, j)
+        a2 = p if (n + variant) % 3 == 0 else ("i", 100 + 10 * i + j)
+        body.append(("call", j, a1, a2))
         if n == 0 and variant % 2 == 1:
-            body.append(A.If([A.IfBranch(False, [A.Cond("op", ("c", p), "==", "int", ("i", i))], [A.Ctrl("return")])]))
+            body.append(A.If([A.IfBranch(False, [A.Cond("op", p if p[0] == "c" else ("c", "$X"), "==", "int", ("i", i))], [A.Ctrl("return")])]))
     if variant % 2 == 0:
         body.append(A.If([A.IfBranch(True, [A.Cond("special", False, "debug")], [A.Ctrl("return")])]))
     body.append(A.Label("priv"))
-    body.append(A.Op(f"m{i}_b", [("c", q)]))
+    body.append(A.Op(f"m{i}_b", [q]))
     if variant % 3 != 2:
-        body.append(A.If([A.IfBranch(False, [A.Cond("op", ("c", q), "<", "int", ("i", 3))], [A.Jump("priv")])]))
+        body.append(A.If([A.IfBranch(False, [A.Cond("op", ("c", f"$LOOPVAR{i}"), "<", "int", ("i", 3))], [A.Jump("priv")])]))
     else:
         body.append(A.While(False, A.Cond("bit", False, ("c", f"$FLAGS{i}"), 1), [A.Ctrl("break_loop")]))
     return body
@@ -69,18 +75,33 @@ def macro_body(i, callees, variant, seed):
 
 def make_macros(m, edges, variant, seed):
     callees = {i: sorted(j for a, j in edges if a == i) for i in range(m)}
-    return [A.Macro(f"m{i}", [f"$p{i}", f"$q{i}"], macro_body(i, callees[i], variant + i, seed)) for i in range(m)]
+    nps = [n_params(i, variant) for i in range(m)]
+    out = []
+    for i in range(m):
+        body = []
+        for st in macro_body(i, callees[i], variant + i, seed, nps[i]):
+            if isinstance(st, tuple) and st[0] == "call":
+                _, j, a1, a2 = st
+                body.append(A.MacroCall(f"m{j}", [a1, a2][:nps[j]]))
+            else:
+                body.append(st)
+        out.append(A.Macro(f"m{i}", [f"$p{i}", f"$q{i}"][:nps[i]], body))
+    return out
 
 
-def main_routine(m, edges, seed):
+def main_routine(m, edges, seed, variant=0):
     callers = {j for _, j in edges}
     roots = [i for i in range(m) if i not in callers]
+    nps = [n_params(i, variant) for i in range(m)]
     body = [A.Op("start_op", [])]
     for n, i in enumerate(roots):
-        body.append(A.MacroCall(f"m{i}", [ARG_KINDS[(seed + n) % len(ARG_KINDS)](i, 0), ("i", 900 + i)]))
+        body.append(A.MacroCall(f"m{i}", [ARG_KINDS[(seed + n) % len(ARG_KINDS)](i, 0), ("i", 900 + i)][:nps[i]]))
     # call macro 0 a second time (private labels / return per expansion), inside a block
     body.append(A.If([A.IfBranch(False, [A.Cond("special", False, "edit")],
-                                 [A.MacroCall("m0", [("c", "SECOND_CALL"), ("s", "again")])])]))
+                                 [A.MacroCall("m0", [("c", "SECOND_CALL"), ("s", "again")][:nps[0]])])]))
+    # and the last macro twice more in a row (parameterless for some variants)
+    body.append(A.MacroCall(f"m{m - 1}", [("i", 7), ("i", 8)][:nps[m - 1]]))
+    body.append(A.MacroCall(f"m{m - 1}", [("i", 9), ("c", "LAST")][:nps[m - 1]]))
     body.append(A.Op("end_op", []))
     return A.Routine("def", 0, body)
 
@@ -141,7 +162,7 @@ def build_files(spec, seed):
         imports_main.append("./lib.exps")
     elif in_lib2:
         imports_main.append("./deep/lib2.exps")
-    main = A.Program([main_routine(m, edges, seed)], in_main, imports=imports_main)
+    main = A.Program([main_routine(m, edges, seed, spec["variant"])], in_main, imports=imports_main)
     # routine between macro definitions for some variants: macros after the routine are legal too
     if spec["variant"] % 2 == 1 and in_main:
         main.order = [("m", i) for i in range(len(in_main) // 2)] + [("r", 0)] + \
